@@ -74,7 +74,7 @@ def gen_root():
             out.append(c)
         out.append('#[path = "%s"] pub(crate) mod %s;' % (f, name))
     # second, directly callable inclusion of the fmt literal parser (private in `fmt`)
-    out.append('#[path = "%s"] pub(crate) mod fmt_parsing_direct;' % os.path.join(common.REPO, "impl", "src", "fmt", "parsing.rs"))
+    out.append('#[cfg(feature = "vc_int_fmt")] #[path = "%s"] pub(crate) mod fmt_parsing_direct;' % os.path.join(common.REPO, "impl", "src", "fmt", "parsing.rs"))
     out.append('#[path = "%s"] mod scanner_snapshot;' % os.path.join(os.path.dirname(HARNESS_SRC), "scanner_snapshot.rs"))
     out.append('#[path = "%s"] mod harness;' % HARNESS_SRC)
     out.append("pub(crate) const REPO_IMPL_SRC: &str = \"%s\";" % os.path.join(common.REPO, "impl", "src"))
@@ -108,6 +108,17 @@ def features():
 
 
 _built = {}
+_internals = {}
+# optional parts of the harness that call derive_more-impl's INTERNAL items by name (the literal parser's AST, the
+# argument scanner type): when a refactor renames those, the harness is built without them, so that every check which
+# only needs `expand` keeps working; checks that need them say INCONCLUSIVE
+INTERNALS = ("vc_int_fmt", "vc_int_args")
+
+
+def has(feature):
+    """Whether the harness built for the current repository copy contains the optional part `feature`."""
+    build()
+    return feature in _internals.get(crate_dir(), ())
 
 
 def build():
@@ -115,7 +126,7 @@ def build():
     cdir = crate_dir()
     if cdir in _built:
         return _built[cdir]
-    feats = features()
+    feats = features() + list(INTERNALS)
     # the binary name is unique per repository copy: all builds share one target directory, where
     # equally named binaries of different copies would overwrite each other
     binname = "inproc" + common.repo_tag()
@@ -154,12 +165,20 @@ panic = "unwind"
             if os.path.exists(cand):
                 shutil.copy(cand, os.path.join(cdir, "Cargo.lock"))
                 break
-    rc, diags, arts, err = common.cargo_json(cdir, ("build",))
-    if rc != 0 or binname not in arts:
-        msgs = "\n".join(common.diag_text(d) for d in diags if d.get("level") == "error")
-        raise Inconclusive("in-process harness failed to build against %s:\n%s\n%s" % (common.REPO, msgs[-3000:], err[-1500:]))
-    _built[cdir] = arts[binname]
-    return arts[binname]
+    base = [f for f in feats if f not in INTERNALS]
+    first = None
+    for opt in (INTERNALS, ("vc_int_args",), ("vc_int_fmt",), ()):
+        extra = () if opt == INTERNALS else ("--no-default-features", "--features", ",".join(base + list(opt)))
+        rc, diags, arts, err = common.cargo_json(cdir, ("build",), extra=extra)
+        if rc == 0 and binname in arts:
+            _built[cdir] = arts[binname]
+            _internals[cdir] = tuple(opt)
+            return arts[binname]
+        if first is None:
+            first = (diags, err)
+    diags, err = first
+    msgs = "\n".join(common.diag_text(d) for d in diags if d.get("level") == "error")
+    raise Inconclusive("in-process harness failed to build against %s:\n%s\n%s" % (common.REPO, msgs[-3000:], err[-1500:]))
 
 
 def hexs(s):
